@@ -213,11 +213,14 @@ func exAbstractStatus(r *v1beta1.BatchRelease) exStatus {
 	return s
 }
 
+// exOwnerUID is the UID of the BatchRelease whose control annotation counts as "this"
+var exOwnerUID = "br-uid"
+
 func exAbstractWL(cs *kruisev1alpha1.CloneSet) J {
 	owner := "none"
 	if a := cs.Annotations[util.BatchReleaseControlAnnotation]; a != "" {
 		ref := &metav1.OwnerReference{}
-		if json.Unmarshal([]byte(a), ref) == nil && ref.UID == "br-uid" {
+		if json.Unmarshal([]byte(a), ref) == nil && string(ref.UID) == exOwnerUID {
 			owner = "this"
 		} else {
 			owner = "other"
